@@ -14,7 +14,8 @@ shutil.rmtree(wt, ignore_errors=True)
 os.makedirs("/tmp/via", exist_ok=True)
 subprocess.run("git -C /repo worktree prune; git -C /repo worktree add -q --detach %s HEAD" % wt, shell=True, check=True)
 try:
-    subprocess.run(["git", "apply", src + "/patch.diff"], cwd=wt, check=True)
+    if subprocess.run(["git", "apply", src + "/patch.diff"], cwd=wt).returncode != 0:
+        subprocess.run("patch -p1 -F3 --no-backup-if-mismatch < %s/patch.diff" % src, shell=True, cwd=wt, check=True)
     p = subprocess.run("./check %s %s" % (prop, tier), shell=True, cwd="/verif", env=dict(os.environ, VERIF_REPO=wt),
                        stdout=subprocess.PIPE, stderr=subprocess.STDOUT, text=True)
     lines = p.stdout.splitlines()
